@@ -14,7 +14,7 @@ run_one() {
   wt=$(mktemp -d /tmp/regress.XXXX)
   git -C /repo worktree add -q --detach "$wt" HEAD 2>/dev/null || { echo "ERROR $name worktree"; return; }
   if ! git -C "$wt" apply "$d/patch.diff" 2>/dev/null; then echo "SKIP $name (patch no longer applies to HEAD)"; git -C /repo worktree remove --force "$wt"; return; fi
-  out=$(cd /verif && FWD_REPO="$wt" bin/fwdcheck -repo "$wt" -out /tmp/regress_evidence_$$_$name -known known_findings.json -property "$prop" 2>&1); rc=$?
+  out=$(cd /verif && FWD_REPO="$wt" ${FWDCHECK:-bin/fwdcheck} -repo "$wt" -out /tmp/regress_evidence_$$_$name -known known_findings.json -property "$prop" 2>&1); rc=$?
   rm -rf /tmp/regress_evidence_$$_$name
   git -C /repo worktree remove --force "$wt" 2>/dev/null; rm -rf "$wt"
   if [ "$rc" = "$want" ]; then echo "OK $name $prop exit=$rc"; else echo "FAIL $name $prop exit=$rc want=$want: $(echo "$out" | grep -B1 '^VIOLATION' | grep -v '^VIOLATION\|^--' | cut -c1-220 | head -2 | tr '\n' '|')"; fi
